@@ -9,8 +9,8 @@
    registers at a definition or use.  The model table [ainfer p] is compared with the real
    infer_state_of on every run (L1), and [wf_prog (ainfer p) p] is evaluated on every real
    output of accfg-trace-states (L1). *)
-From Snax Require Import Base.Prelude Model.AccIR Model.AccSem Model.AccInfer Model.AccDedup Model.AccWeave
-  Proofs.AccSemProofs Proofs.AccInferProofs Proofs.AccWeaveProofs.
+From Snax Require Import Base.Prelude Model.AccIR Model.AccSem Model.AccInfer Model.AccInferTy Model.AccDedup Model.AccWeave
+  Proofs.AccSemProofs Proofs.AccInferProofs Proofs.AccWeaveProofs Proofs.AccHeadProofs.
 
 (* For every certified table and program, every oracle (initial registers, what opaque calls write
    and return) and all arguments — hence all trip counts, including zero, and all branch outcomes —
@@ -30,6 +30,42 @@ Theorem C07_model_inference_sound_partial :
   forall (orc : oracle) (args : list Z), chk_prog (tfun (ainfer p)) orc p args = [].
 Proof. intros p H orc args. exact (wf_sound (tfun (ainfer p)) orc p args H). Qed.
 Print Assumptions C07_model_inference_sound_partial.
+
+(* ---- the correctness argument of the F1 repair, about the model of infer_state_of -----------------
+   For a loop whose state values are typed per accelerator ([sty_stmt], decidable, evaluated on every
+   real accfg-trace-states output by L1) and any table T of proper dictionaries in front of it: the
+   head state  head := state_intersection(init, yielded-when-the-body-is-walked-from-init)  is contained
+   in what the body yields when it is walked FROM THE HEAD — by induction over the body through nested
+   loops and conditionals, using that inference is field-local per accelerator — and the other three
+   loop clauses of the certificate hold by construction.
+
+   Full statement NOT proved:  ainfer_certified_all : wt p -> ssa p -> ainfer_certified p = true.
+   Missing: (1) frame — lookups in the FINAL table return the entry created at the definition (needs
+   uniqueness of state-value definitions), (2) the scoping clause facts_avoid (facts only mention values
+   defined earlier; needs SSA dominance), (3) the link clauses from the weave.  The clauses below are the
+   semantic content; (1)-(3) are bookkeeping, and [ainfer_certified] is evaluated on every generated
+   program by L1. *)
+Theorem C07_loop_head_inductive :
+  forall ty_of iv lb ub sp its rs body ys T,
+  sty_stmt ty_of (SFor iv lb ub sp its rs body ys) = true -> tbl_ok T ->
+  nodup_nat (map si_arg (state_iters its ys rs)) = true ->
+  let sis := state_iters its ys rs in
+  let T1' := ainfer_block body (fold_left (fun T' x => tset (si_arg x) (tlook T (si_init x)) T') sis T) in
+  let T2 := fold_left (fun T' x => tset (si_arg x) (st_inter (tlook T (si_init x)) (tlook T1' (si_yield x))) T') sis T in
+  let T2' := ainfer_block body T2 in
+  forall x, In x sis ->
+    let head := tlook T2 (si_arg x) in
+    let res := st_inter (tlook T (si_init x)) (tlook T2' (si_yield x)) in
+    st_sub head (tlook T (si_init x)) = true /\ st_sub head (tlook T2' (si_yield x)) = true /\
+    st_sub res (tlook T (si_init x)) = true /\ st_sub res (tlook T2' (si_yield x)) = true.
+Proof. exact ainfer_loop_clauses. Qed.
+Print Assumptions C07_loop_head_inductive.
+
+Theorem C07_inference_field_local :
+  forall ty_of a f b, sty_block ty_of b = true ->
+  forall T1 T2, tbl_ok T1 -> tbl_ok T2 -> rel ty_of a f T1 T2 -> rel ty_of a f (ainfer_block b T1) (ainfer_block b T2).
+Proof. exact loc_block. Qed.
+Print Assumptions C07_inference_field_local.
 
 (* ---- the model of _weave_states_in_region (compared with the real pass by L1 on every run) ------
    What is still assumed after something that may reconfigure the accelerators behind the
@@ -74,8 +110,9 @@ Definition c07_two_cfg : prog :=
 
 (* non-vacuity: the model's table for it is certified, and assumes B = %y at the loop head *)
 Example C07_nonvacuous :
-  wf_prog (tfun (ainfer c07_two_cfg)) c07_two_cfg = true /\ tlook (ainfer c07_two_cfg) 15%nat = [(1%nat, 1%nat)].
-Proof. split; reflexivity. Qed.
+  wf_prog (tfun (ainfer c07_two_cfg)) c07_two_cfg = true /\ tlook (ainfer c07_two_cfg) 15%nat = [(1%nat, 1%nat)]
+  /\ sty_prog c07_two_cfg = true.
+Proof. repeat split; reflexivity. Qed.
 Print Assumptions C07_nonvacuous.
 
 (* the check has teeth: the table the code computed BEFORE the F1 repair (loop head := the
